@@ -5,7 +5,7 @@ import os
 import re
 import tomllib
 
-REPO = "/repo"
+REPO = os.environ.get("VERIF_REPO", "/repo")
 
 
 def _limits(cfg):
